@@ -213,6 +213,8 @@ theorem InvF.step {σ : St} (h : InvF σ) (op : Op) : InvF (step σ op) := by
       · intro hc
         rcases hc with hc | hc | hc <;> exact absurd hc (by simp)
     · exact h
+  | offload => exact ⟨h.iqPhase, h.halfFresh, h.fresh, h.iqFresh, h.logF⟩
+  | rollback => exact ⟨h.iqPhase, h.halfFresh, h.fresh, h.iqFresh, h.logF⟩
 
 theorem InvF.steps {σ : St} (h : InvF σ) (ops : List Op) : InvF (steps σ ops) := by
   induction ops generalizing σ with
